@@ -27,8 +27,8 @@ from mc import core, gen
 ID = "C13"
 LEVEL = "exploration"
 RULE = (
-    "values = every Unicode scalar value in the tier's range (quick: U+0000-U+FFFF, thorough: U+0000-U+10FFFF, "
-    "surrogates excluded) in three contexts (c, a+c+b, c+c) + every concatenation of <=3 (thorough <=4) atoms of a "
+    "values = every Unicode scalar value U+0000-U+10FFFF (quick: three contexts up to U+FFFF, a<c>b beyond; "
+    "surrogates excluded) in three contexts (c, a+c+b, c+c) + every concatenation of <=4 (thorough <=5) atoms of a "
     "19-atom alphabet (quote, semicolon, comma, backslash, =, space, TAB, CR, LF, NUL, 0x19, 0x1A, 0x1F, 0x7F, %, "
     "e-acute, non-BMP, an already escaped \\054); token keys x values; the full attribute product; the test-client "
     "jar for all strings <=2 (thorough <=3) atoms. One evaluation = one dump_cookie result checked (value syntax, "
@@ -192,7 +192,7 @@ def expected_attrs(dom, exp, age, secure, httponly, path, ss, part):
 
 
 def attr_cases(tier):
-    quick = tier != "thorough"
+    quick = False   # the full product in both tiers (promoted into quick)
     paths = range(5) if quick else range(len(PATHS))
     doms = range(len(DOMAINS))
     exps = (0, 1, 2, 6) if quick else range(len(EXPIRES))
@@ -695,12 +695,12 @@ SWEEP_CHUNK = 0x400
 
 
 def units(tier):
-    top = 0x110000 if tier == "thorough" else 0x10000
+    top = 0x110000          # every Unicode scalar value in the three main contexts, both tiers
     us = [("sweep", lo, min(lo + SWEEP_CHUNK, top)) for lo in range(0, top, SWEEP_CHUNK)
           if not (0xD800 <= lo and lo + SWEEP_CHUNK <= 0xE000)]
-    depth = 4 if tier == "thorough" else 3
+    depth = 4
     for i in range(len(ATOMS)):
-        if tier == "thorough":
+        if True:
             for j in range(len(ATOMS)):
                 us.append(("strings2", i, j, depth))
         else:
@@ -717,7 +717,7 @@ def units(tier):
     # ---- round 2
     T = tier == "thorough"
     us.append(("r2sync",))
-    for pi in range(len(PATHS) if T else 5):
+    for pi in range(len(PATHS)):
         us.append(("r2resp", pi))
     us.append(("r2misc",))
     for v0 in range(len(MC_VALUES)):
@@ -726,15 +726,12 @@ def units(tier):
         for oo in (True, False):
             us.append(("r2scope", di, oo))
     for o1 in range(len(JAR_OPS)):
-        if T:
-            for o2 in range(len(JAR_OPS)):
-                us.append(("r2jarhist", (o1, o2), 5))
-        else:
-            us.append(("r2jarhist", (o1,), 3))
+        for o2 in range(len(JAR_OPS)):
+            us.append(("r2jarhist", (o1, o2), 5 if T else 4))
     us.append(("r2jarhist", (), 1))
     for i in range(0, len(PAIR_POINTS), 8):
         us.append(("pairs", i, i + 8))
-    xtop = 0x110000 if T else 0x3000
+    xtop = 0x110000 if T else 0x10000
     xchunk = 0x1000 if T else 0x400
     for lo in range(0, xtop, xchunk):
         if not (0xD800 <= lo and lo + xchunk <= 0xE000):
@@ -761,9 +758,10 @@ def run_unit(unit, R, tier):
             if 0xD800 <= cp <= 0xDFFF:
                 continue
             c = chr(cp)
-            check_value(R, "k", c, "sweep", with_tail=False)
             check_value(R, "k", "a" + c + "b", "sweep")
-            check_value(R, "k", c + c, "sweep", with_tail=False)
+            if cp < 0x10000 or tier == "thorough":   # quick: planes 1-16 in the a<c>b context only
+                check_value(R, "k", c, "sweep", with_tail=False)
+                check_value(R, "k", c + c, "sweep", with_tail=False)
         try:
             ex = dump_cookie("k", "a" + chr(lo if not 0xD800 <= lo <= 0xDFFF else 0xE000) + "b", path=None)
             R.sample({"space": "sweep", "from": lo, "to": hi - 1, "example": ex})
@@ -825,8 +823,8 @@ def run_r2_unit(unit, R, tier):
     if kind == "r2sync":
         for ai in range(len(SYNC_AGES)):
             for via in (0, 1):
-                for ei in ((0, 1, 6) if not T else range(len(EXPIRES))):
-                    for vi in ((0, 1) if not T else range(len(ATTR_VALUES))):
+                for ei in range(len(EXPIRES)):
+                    for vi in range(len(ATTR_VALUES)):
                         what, h = r2_eval(R, "sync", (ai, via, ei, vi))
                         R.use("sync:explicit" if EXPIRES[ei][1] else "sync:clock")
         R.sample({"space": "sync_expires", "clock": str(_FakeDT.fixed), "max_age": 60,
@@ -835,7 +833,7 @@ def run_r2_unit(unit, R, tier):
         pi = unit[1]
         for di in range(len(DOMAINS)):
             for se, ho, pa in itertools.product((False, True), repeat=3):
-                for si in range(len(SAMESITES) if T else 4):
+                for si in range(len(SAMESITES)):
                     for op in ("delete", "set", "set+delete"):
                         for msz in (0, 1, 4093):
                             r2_eval(R, "resp", (pi, di, se, ho, si, pa, op, msz))
@@ -937,7 +935,7 @@ def finalize(R, tier):
     need |= {"atom:%d" % i for i in range(len(ATOMS))} | {"jar:%d" % i for i in range(len(ATOMS))}
     need |= {"key:" + k for k in KEYS}
     need |= {"sec:True", "sec:False", "ho:True", "ho:False", "part:True", "part:False"}
-    if tier == "thorough":
+    if True:
         need |= {"plane:%d" % p for p in range(17)}
         need |= {f"path:{i}" for i in range(len(PATHS))}
         need |= {f"exp:{i}" for i in range(len(EXPIRES))} | {f"ss:{i}" for i in range(len(SAMESITES))}
@@ -961,8 +959,8 @@ def finalize(R, tier):
         if not VAL.fullmatch(good[2:]):
             raise core.Broken(f"oracle self-test: value syntax rejects {good!r}")
     return {
-        "bound": ("U+0000-U+FFFF x3 contexts (+10 contexts up to U+2FFF), strings <=3 atoms, jar <=2 atoms, "
-                  "multi-cookie headers <=3, jar histories <=3" if tier == "quick" else
+        "bound": ("U+0000-U+FFFF x3 contexts (+10 more contexts), U+10000-U+10FFFF x1 context, strings <=4 atoms, jar <=2 atoms, "
+                  "multi-cookie headers <=3, jar histories <=4, full attribute product" if tier == "quick" else
                   "U+0000-U+10FFFF x13 contexts, strings <=5 atoms, jar <=3 atoms, multi-cookie headers <=4, "
                   "jar histories <=5"),
         "exhaustive": True,
